@@ -71,7 +71,10 @@ def replay(f):
     r = replay_with(f, check_imports=True)
     if r.get("reproduced"):
         try:
-            r["signature"] = r["signature"].replace("|", "/") + "".join("|" + t for t in tags_of(f["witness"]["files"], f["witness"]["op"]))
+            from harness.bref_replay import manifestation
+
+            how = manifestation(r["signature"])
+            r["signature"] = r["signature"].replace("|", "/") + "".join("|%s@%s" % (t, how) for t in tags_of(f["witness"]["files"], f["witness"]["op"]))
         except Exception:
             r["signature"] = r["signature"].replace("|", "/") + "|untagged"
     return r
